@@ -1,5 +1,7 @@
 use crate::engine::{DynModel, Report, Tier};
 
+pub mod hist;
+
 macro_rules! props {
     ($(($id:literal, $m:ident)),* $(,)?) => {
         $(pub mod $m;)*
